@@ -629,7 +629,7 @@ var propHistories = &kit.Prop[Case]{
 }
 
 func TestHistories(t *testing.T) {
-	n := kit.N(1500, 2500)
+	n := kit.N(1500, 12000)
 	if kit.Race() {
 		n = 100
 	}
